@@ -433,6 +433,9 @@ def _spec(case, out):
                 bad.append("[C10-tsl-lifecycle] at node stop %d children stop, %d were started" % (us + len(stops), len(live)))
             if f.get("n") != str(len(live)):
                 bad.append("[C10-tsl-lifecycle] at node stop %s stop events, %d children were started" % (f.get("n"), len(live)))
+            if f.get("late") != "0":
+                bad.append("[C10-tsl-lifecycle] %s children were not stopped by the node's stop but only when the node storage "
+                           "was destroyed" % f.get("late"))
             continue
         if w[0] != "c":
             continue
